@@ -11,12 +11,21 @@ pub struct ScheduledReader {
     sizes: Vec<usize>,
     call: usize,
     pub fail_at: Option<usize>,
+    pub fail_kind: io::ErrorKind,
     pub calls_made: usize,
 }
 
 impl ScheduledReader {
     pub fn new(data: &[u8], sizes: &[usize]) -> Self {
-        Self { data: data.to_vec(), pos: 0, sizes: sizes.to_vec(), call: 0, fail_at: None, calls_made: 0 }
+        Self { data: data.to_vec(), pos: 0, sizes: sizes.to_vec(), call: 0, fail_at: None, fail_kind: io::ErrorKind::Other, calls_made: 0 }
+    }
+
+    /// one-shot fault of a chosen kind (`Interrupted`: callers may retry; `UnexpectedEof`: what a
+    /// truncated stream below reports)
+    pub fn with_fault_kind(mut self, at: usize, kind: io::ErrorKind) -> Self {
+        self.fail_at = Some(at);
+        self.fail_kind = kind;
+        self
     }
 
     pub fn from_chunks(chunks: &[Vec<u8>]) -> Self {
@@ -36,7 +45,7 @@ impl Read for ScheduledReader {
         let this_call = self.calls_made;
         self.calls_made += 1;
         if Some(this_call) == self.fail_at {
-            return Err(io::Error::other("injected source fault"));
+            return Err(io::Error::new(self.fail_kind, "injected source fault"));
         }
         if buf.is_empty() || self.pos >= self.data.len() {
             return Ok(0);
@@ -65,12 +74,18 @@ pub struct ScheduledWriter {
     pub out: Vec<u8>,
     sizes: Vec<usize>,
     pub fail_at: Option<usize>,
+    pub fail_kind: io::ErrorKind,
     pub calls_made: usize,
 }
 
 impl ScheduledWriter {
     pub fn new(sizes: &[usize]) -> Self {
-        Self { out: Vec::new(), sizes: sizes.to_vec(), fail_at: None, calls_made: 0 }
+        Self { out: Vec::new(), sizes: sizes.to_vec(), fail_at: None, fail_kind: io::ErrorKind::Other, calls_made: 0 }
+    }
+    pub fn with_fault_kind(mut self, at: usize, kind: io::ErrorKind) -> Self {
+        self.fail_at = Some(at);
+        self.fail_kind = kind;
+        self
     }
     pub fn with_fault(mut self, at: usize) -> Self {
         self.fail_at = Some(at);
@@ -83,7 +98,7 @@ impl Write for ScheduledWriter {
         let this_call = self.calls_made;
         self.calls_made += 1;
         if Some(this_call) == self.fail_at {
-            return Err(io::Error::other("injected sink fault"));
+            return Err(io::Error::new(self.fail_kind, "injected sink fault"));
         }
         if buf.is_empty() {
             return Ok(0);
